@@ -265,10 +265,12 @@ PutAdmissible(c, f, w, hid, ev, seq) ==
 \* C10 / C11: when is out-of-memory not admissible?
 OomAdmissible(c, f, hid, ev) ==
   /\ Chk("C10", "drained-base-oom",
-         (drained /\ NeverInvalid(c) /\ ev.target = -1 /\ ev.order = 0 /\ CallCheck(c, ev))
+         (drained /\ fuzzy = {} /\ NeverInvalid(c) /\ ev.target = -1 /\ ev.order = 0 /\ CallCheck(c, ev))
             => DrainedOomOk(c, f, hid))
+  \* fuzzy # {}: concurrent tree changes ran in this execution, which trees are offline is not tracked exactly
+  \* (their frames are legitimately unallocatable, C15) - no C10 demand then
   /\ Chk("C10", "drained-get-at-must-succeed",
-         (drained /\ NeverInvalid(c) /\ ev.target # -1 /\ CallCheck(c, ev))
+         (drained /\ fuzzy = {} /\ NeverInvalid(c) /\ ev.target # -1 /\ CallCheck(c, ev))
             => ~DrainedGetAtMust(c, f, hid, ev.target, ev.order))
   /\ Chk("C11", "single-slot-oom",
          (c.c11 = 1 /\ c11ok /\ ev.target = -1 /\ ev.order = 0 /\ ev.slot = 0 /\ ev.class = 0)
